@@ -1,6 +1,7 @@
 import WacModel.Aggregate
 import WacModel.Spec.Merge
 import WacProofs.Lemmas.Sub
+import WacProofs.Lemmas.Merge
 /-
   C09 — merged import requirements satisfy every contributor, order-independently.
 
@@ -142,6 +143,22 @@ theorem fails_incompatible_witness :
   refine ⟨?_, ?_, ?_⟩ <;> decide +kernel
 
 /-! ### specification side -/
+
+/-- **`agg_upper_bound`, specification side**: the merge of two requirements, when it exists,
+satisfies both — for requirements without component / core-module types in merged positions
+(`cov`; the fragment where the implementation is expected to agree with the specification) -/
+theorem meet_upper_bound (a b m : Tree) (hc : cov a = true) (ha : a.namesDistinct = true)
+    (hb : b.namesDistinct = true) (hm : meet a b = some m) : sub m a = true ∧ sub m b = true :=
+  meet_lower_bound a b m hc ha hb hm
+
+example : cov treeA = true ∧ treeA.namesDistinct = true ∧ treeB.namesDistinct = true ∧ (meet treeA treeB).isSome = true := by
+  decide +kernel
+
+/-- **`instance_merge_union`, specification side**: merged instance requirements export exactly the
+union of the export names -/
+theorem instance_merge_union_spec (ea eb : Forest) (m : Tree) (hm : meet (.instance ea) (.instance eb) = some m) :
+    ∃ M, m = .instance M ∧ ∀ k, M.hasName k = (ea.hasName k || eb.hasName k) :=
+  meet_instance_names ea eb m hm
 
 /-- the merge of equal requirements is the requirement (`equal_merge_self`, specification) -/
 theorem meet_self_eqKind (t : Tree) (h : isEqKind t = true) : meet t t = some t := by
